@@ -634,7 +634,8 @@ Definition same_outside (d : path) (f f0 : fs) : Prop := forall q, under d q = f
    only below d *)
 Lemma sim_step : forall A f0 d c (k : fres val -> prog A) f g f' r,
   prog_confined f0 d (Do c k) -> same_outside d f f0 -> agree_on d g f -> exec_res f c = (f', r) ->
-  prog_confined f0 d (k r) /\ same_outside d f' f0 /  exists g', exec_res g c = (g', r) /\ agree_on d g' f' /\ (forall q, under d q = false -> get g' q = get g q).
+  prog_confined f0 d (k r) /\ same_outside d f' f0 /\
+  exists g', exec_res g c = (g', r) /\ agree_on d g' f' /\ (forall q, under d q = false -> get g' q = get g q).
 Proof.
   intros A f0 d c k f g f' r Hc Hso Ha He. inversion Hc; subst.
   - (* a call below d *)
@@ -644,8 +645,8 @@ Proof.
     rewrite He in E2. inversion E2; subst f2. intros q Hq. rewrite Hfr2 by exact Hq. apply Hso. exact Hq.
   - (* stat of an ancestor *)
     unfold exec_res in He. simpl in He. inversion He; subst f' r. clear He.
-    rewrite (Hso p H3). split; [exact H4|]. split; [exact Hso|].
-    exists g. unfold exec_res. simpl. rewrite (Ha p (or_intror H2)), (Hso p H3). auto.
+    rewrite (Hso p H2). split; [exact H3|]. split; [exact Hso|].
+    exists g. unfold exec_res. simpl. rewrite (Ha p (or_intror H1)), (Hso p H2). auto.
 Qed.
 
 Lemma reach_confined : forall A f0 d (p0 : prog A) f p f1,
